@@ -37,3 +37,14 @@ Definition py_int (s : (list Z)) : res Z :=
   | r => unsigned_val r
   end.
 
+
+(* str.encode("utf-8") on a list of code points; lone surrogates (U+D800..U+DFFF) and values outside the Unicode range are
+   refused (CPython raises UnicodeEncodeError) *)
+Definition utf8_cp (c : Z) : list Z :=
+  if c <? 128 then [c]
+  else if c <? 2048 then [192 + c / 64; 128 + c mod 64]
+  else if c <? 65536 then [224 + c / 4096; 128 + (c / 64) mod 64; 128 + c mod 64]
+  else [240 + c / 262144; 128 + (c / 4096) mod 64; 128 + (c / 64) mod 64; 128 + c mod 64].
+Definition utf8_ok (c : Z) : bool := (0 <=? c) && (c <? 1114112) && negb ((55296 <=? c) && (c <? 57344)).
+Definition utf8_encode (s : list Z) : option (list Z) :=
+  if forallb utf8_ok s then Some (flat_map utf8_cp s) else None.
